@@ -141,12 +141,15 @@ class G:
 
     def invalid_stmt(self):
         rng = self.rng
-        sugar = rng.choice(["(a, b)", "U()(a)", "V()(a, b)", "Z()(a)", "(a, U()(b))", "(a, b + (a, b))", "(a, (b, -(a, b)))", "(a, o[(0, 1)])"])
+        sugar = rng.choice(["(a, b)", "U()(a)", "V()(a, b)", "Z()(a)", "(a, U()(b))", "(a, b + (a, b))", "(a, (b, -(a, b)))", "(a, o[(0, 1)])",
+                             # sugar below the top of an expression: inside arithmetic, an inline array, a call, a ternary, an index
+                             "U()(a) + 1", "[a, U()(b)]", "g(U()(a))", "(a == 1 ? U()(a) : b)", "-U()(b)", "o[U()(a)]", "2 * (a, b)", "g((a, b))",
+                             "P(U()(a) + 1)(b)", "P([a, U()(b)])(a)"])
         forms = ["if (%s == 1) { }", "while (%s) { }", "assert(%s);", "log(1 + %s);", "log(%s);", "return %s;", "var x[%s];",
                  "sx <== o[%s];", "o[%s] <== a;", "sx <== g(%s);", "sx <== a ? %s : b;", "sx <== a + %s;", "sx <== -%s;",
                  "var arr[2] = [%s, 1];", "%s === a;", "sx <== parallel (%s);", "sx <== P(%s)(a);", "sx <== U()(a + %s);",
                  "(sx, g(1)) <== (a, %s);", "(sx, sy) <== (a, b, %s);", "sx <== (a, %s);", "1 + 2 <== %s;", "sx <== W(%s);",
-                 "%s <== a;", "(sx, %s) <== (a, b);", "sx <== P(1)(%s);", "for (var i = 0; i < %s; i++) { }", "var arr[1] = [%s]; sx <== arr[0];"]
+                 "%s <== a;", "(sx, %s) <== (a, b);", "sx <== P(1)(%s);", "sx <== parallel P(%s)(a);", "sx <== U()(P(%s)(a));", "_ <== P(%s)(b);", "for (var i = 0; i < %s; i++) { }", "var arr[1] = [%s]; sx <== arr[0];"]
         extra = ["sx <== Nope()(a);", "sx <== V()(a);", "(sx, sy) <== V()(a <== a);", "(sx, sy) <== V()(a <== a, b <== b, a <== b);",
                  "(sx, sy) <== V()(a <== a, c <== b);", "sx <== V()(a, b);", "(sx, sy) <== U()(a);", "U()(a);", "sx <== U()(a, b);", "sx <== U()();"]
         if rng.chance(1, 4):
